@@ -426,6 +426,48 @@ func genMqBacklog(r *rng.R) mqCase {
 	return c
 }
 
+// a held send fails for good while at least three messages are pending behind it: the failing request's data
+// sits only in the first one or two pending builders (they empty when the request is scrubbed) with several
+// messages of other requests queued after them — whatever is left must still leave in the order it was queued
+func genMqBacklogFail(r *rng.R) mqCase {
+	var c mqCase
+	nreq := r.Range(2, 3)
+	for i := 1; i <= nreq; i++ {
+		c.Univ = append(c.Univ, uint64(i))
+	}
+	link := uint64(1)
+	c.Labels = append(c.Labels, mqLabel{K: "build", R: 1, Blocks: []mqBlock{{L: link, Size: uint64(r.Range(1, 2000)), Has: true}}})
+	c.Labels = append(c.Labels, mqLabel{K: "net", OK: true}) // connected: held in SendMsg
+	nfail := r.Range(1, 2)
+	nother := r.Range(4, 6)
+	if r.P(1, 3) {
+		// a message of another request ahead of the failing request's pending data
+		link++
+		c.Labels = append(c.Labels, mqLabel{K: "build", R: 2, Blocks: []mqBlock{{L: link, Size: uint64(r.Range(250000, 330000)), Has: true}}})
+	}
+	for i := 0; i < nfail; i++ {
+		link++
+		c.Labels = append(c.Labels, mqLabel{K: "build", R: 1, Blocks: []mqBlock{{L: link, Size: uint64(r.Range(250000, 330000)), Has: true}}})
+	}
+	for i := 0; i < nother; i++ {
+		link++
+		c.Labels = append(c.Labels, mqLabel{K: "build", R: uint64(r.Range(2, nreq)), Blocks: []mqBlock{{L: link, Size: uint64(r.Range(250000, 330000)), Has: true}}})
+	}
+	if r.P(1, 2) {
+		// the send fails and so does the reconnect
+		c.Labels = append(c.Labels, mqLabel{K: "net", OK: false}, mqLabel{K: "net", OK: false})
+	} else {
+		// retries run out: three failed sends, each followed by a successful reconnect
+		for i := 0; i < 3; i++ {
+			c.Labels = append(c.Labels, mqLabel{K: "net", OK: false}, mqLabel{K: "net", OK: true})
+		}
+	}
+	for i := 0; i < 2*(nfail+nother)+6; i++ {
+		c.Labels = append(c.Labels, mqLabel{K: "net", OK: true})
+	}
+	return c
+}
+
 func genMqCase(r *rng.R) mqCase {
 	nreq := r.Range(1, 3)
 	var c mqCase
@@ -550,6 +592,9 @@ func driveMsgQueue(c *ctx) error {
 		}
 		for i := 0; i < n/10; i++ {
 			cases = append(cases, res{mc: genMqBacklog(c.r.Fork()), tag: "backlog"})
+		}
+		for i := 0; i < n/16; i++ {
+			cases = append(cases, res{mc: genMqBacklogFail(c.r.Fork()), tag: "backlog-fail"})
 		}
 	}
 	// run in parallel: each case has its own queue, allocator and network
